@@ -46,3 +46,46 @@ Example C11_E1_history :
   snd (lrun lnone [LCreate KRaw true 0; LStart; LFeed; LInit; LInit; LFeed; LStart; LStart; LDrain; LStop; LFeed; LFeed; LStart; LDrain; LDestroy; LStart]) =
   [OUnit; OBool false; OUnit; OBool true; OBool true; OUnit; OBool true; OBool true; OCount 1; OUnit; OUnit; OUnit; OBool true; OCount 3; OUnit; ONoDrv].
 Proof. vm_compute. reflexivity. Qed.
+
+(* ---- T5: stop() does not wait for ever (the deadlock-freedom half that a call-level model cannot carry) ----
+   The worker loops are regenerated from the current source by kt.py as round functions (Gen/Kernels_gen.v); the theorems are
+   for every interleaving with other threads and every environment (queue contents, sockets, capture file), over the model
+   Model/Worker.v whose only assumptions are that the calls a round makes return (listed in *_calls; popWait and select carry
+   time-outs) and that the thread is scheduled. *)
+From Coq Require Import String.
+From RS Require Import Gen.Kernels_gen Model.Worker Proofs.WorkerExit.
+
+(* once the exit request is made, one round of the decoding thread is enough for join() to return - whatever the other threads
+   do in between, in particular however many packets keep arriving *)
+Theorem C11_T5_decode_thread_exits s acts :
+  w_exit s = true -> existsb is_round acts = true -> w_returned (wrun LidarDriverImpl_processPacket_round s acts) = true.
+Proof. exact (one_round_suffices _ processPacket_exits s acts). Qed.
+Print Assumptions C11_T5_decode_thread_exits.
+(* ... and over a whole history at most one round is ever started after the request *)
+Theorem C11_T5_at_most_one_round_after_stop acts : w_rounds_after (wrun LidarDriverImpl_processPacket_round winit acts) <= 1.
+Proof. exact (at_most_one_round_after_request _ processPacket_exits acts). Qed.
+(* the same for the receiving threads of the socket, pcap and jumbo pcap inputs *)
+Theorem C11_T5_recv_threads_exit s acts : w_exit s = true -> existsb is_round acts = true ->
+  w_returned (wrun InputSock_recvPacket_round s acts) = true /\ w_returned (wrun InputPcap_recvPacket_round s acts) = true /\
+  w_returned (wrun InputPcapJumbo_recvPacket_round s acts) = true.
+Proof.
+  intros H1 H2. exact (conj (one_round_suffices _ sock_recv_exits s acts H1 H2)
+                      (conj (one_round_suffices _ pcap_recv_exits s acts H1 H2) (one_round_suffices _ pcap_jumbo_recv_exits s acts H1 H2))).
+Qed.
+(* a thread that has returned does nothing any more: no round, hence no callback, after join() *)
+Theorem C11_T5_nothing_after_join s acts : w_returned s = true -> w_rounds (wrun LidarDriverImpl_processPacket_round s acts) = w_rounds s.
+Proof. exact (no_round_after_return _ s acts). Qed.
+(* the decoding thread ends for no other reason (empty queue, time-out): a started driver keeps decoding until stop() *)
+Theorem C11_T5_only_on_request cs : LidarDriverImpl_processPacket_round false cs = RCont.
+Proof. exact (processPacket_only_on_request cs). Qed.
+(* what the round of the decoding thread tests and calls *)
+Theorem C11_T5_round_shape :
+  LidarDriverImpl_processPacket_conds = ["pkt.get() == NULL"%string] /\
+  LidarDriverImpl_processPacket_calls = ["popWait"%string; "get"%string; "internalProcessPacket"%string].
+Proof. exact processPacket_shape. Qed.
+(* non-vacuity: packets keep arriving (the queue is never empty: condition false), the request is made, one more round *)
+Example C11_E2_stop_while_feeding :
+  let acts := [WRound [false]; WOther; WRound [false]; WOther; WSetExit; WOther; WOther; WRound [false]; WOther; WRound [false]] in
+  let s := wrun LidarDriverImpl_processPacket_round winit acts in
+  w_returned s = true /\ w_rounds s = 3 /\ w_rounds_after s = 1.
+Proof. vm_compute. repeat split; reflexivity. Qed.
